@@ -501,7 +501,7 @@ func c07Plan(tier string, seed int64) []core.Batch {
 	var bs []core.Batch
 	depth, parts, rnd, ernd := 4, 8, 20000, 150
 	if tier == "thorough" {
-		depth, parts, rnd, ernd = 5, 16, 300000, 3000
+		depth, parts, rnd, ernd = 5, 16, 2000000, 12000
 	}
 	for p := 0; p < parts; p++ {
 		bs = append(bs, core.Batch{Name: fmt.Sprintf("func-p%d", p), TimeoutS: 1200, Args: map[string]any{"mode": "func", "depth": depth, "part": p, "parts": parts, "random": rnd}})
